@@ -223,11 +223,17 @@ def norm_type(t):
 class ExceptionFlow:
     """may_throw(f): set of exception type names that can leave f (UNKNOWN for opaque sources)."""
 
-    def __init__(self, prog, cg=None, opaque_throws=True):
+    def __init__(self, prog, cg=None, opaque_throws=True, only=None, cut=None, site_filter=None):
+        """only: restrict the fixpoint to these function keys (callees outside contribute nothing);
+        cut(fn) -> True: calls into fn contribute nothing (decided elsewhere);
+        site_filter(fn, node, types) -> types: client knowledge about one call site (allow-list)."""
         self.prog = prog
         self.cg = cg or callgraph(prog)
         self.h = Hierarchy(prog)
         self.opaque_throws = opaque_throws
+        self.only = only
+        self.cut = cut
+        self.site_filter = site_filter
         self.mt = {}
         self.unmodelled_ext = {}
         self._solve()
@@ -252,7 +258,7 @@ class ExceptionFlow:
 
     def _solve(self):
         prog = self.prog
-        fns = {(f["unit"], f["id"]): f for f in prog.fns}
+        fns = {(f["unit"], f["id"]): f for f in prog.fns if self.only is None or (f["unit"], f["id"]) in self.only}
         for k in fns:
             self.mt[k] = set()
         changed = True
@@ -287,6 +293,17 @@ class ExceptionFlow:
         return out
 
     def node_throws(self, f, n):
+        out = self._node_throws(f, n)
+        if out and self.site_filter is not None:
+            out = set(self.site_filter(f, n, out))
+        return out
+
+    def _callee_mt(self, tgt):
+        if self.cut is not None and self.cut(tgt):
+            return set()
+        return self.mt.get((tgt["unit"], tgt["id"]), set())
+
+    def _node_throws(self, f, n):
         """Exception types raised directly by evaluating node n itself (not its children)."""
         prog = self.prog
         u = f["unit"]
@@ -308,9 +325,10 @@ class ExceptionFlow:
                         if o in self.mt:
                             tg.add(o)
                     for t in tg:
-                        out |= self.mt.get(t, set())
+                        tf = prog._by_id.get(t)
+                        out |= self._callee_mt(tf) if tf is not None else set()
                 elif tgt is not None:
-                    out |= self.mt.get((tgt["unit"], tgt["id"]), set())
+                    out |= self._callee_mt(tgt)
                 else:
                     d = prog.decls.get((u, fid))
                     out |= self._ext_throws(d, n, f)
@@ -320,7 +338,7 @@ class ExceptionFlow:
                                 if x.get("k") == "lambda" and x.get("fn") is not None:
                                     t2 = prog._by_id.get((u, x["fn"]))
                                     if t2 is not None:
-                                        out |= self.mt.get((t2["unit"], t2["id"]), set())
+                                        out |= self._callee_mt(t2)
             elif n.get("indirect") and self.opaque_throws:
                 out.add(UNKNOWN)
         elif k == "construct":
@@ -328,7 +346,7 @@ class ExceptionFlow:
             if fid is not None:
                 tgt = prog._by_id.get((u, fid))
                 if tgt is not None:
-                    out |= self.mt.get((tgt["unit"], tgt["id"]), set())
+                    out |= self._callee_mt(tgt)
                 else:
                     out |= self._ext_throws(prog.decls.get((u, fid)), n, f)
         elif k == "cast" and n.get("ck") == "dynamic":
@@ -339,7 +357,7 @@ class ExceptionFlow:
                 if v.get("dtor") is not None:
                     tgt = prog._by_id.get((u, v["dtor"]))
                     if tgt is not None:
-                        out |= self.mt.get((tgt["unit"], tgt["id"]), set())
+                        out |= self._callee_mt(tgt)
         return out
 
     def escaping(self, f, n, caught):
